@@ -27,3 +27,91 @@ Section OpGen.
     | _ => other k p x
     end.
 End OpGen.
+
+(* ------------------------------------------------------------------ the dispatch of proximal_operator as DATA
+   The harness regenerates, on every run, the if/elif chain of tensorly.tenalg.proximal.proximal_operator from the current
+   Python source (ast) as a list of (kind, dop): for `constraint == "<name>"` the expression that is returned.  `denote` gives
+   such a table its meaning as an operator family in the vocabulary of Model/Prox.v; `dispatch_ok` is the decidable comparison
+   with the table the end-to-end theorems are stated for (Proofs/ConstraintsProofsFeasible.v: dispatch_table_sound). *)
+Inductive pyfun :=
+| FSoftThresholding | FL2Prox | FL2SquareProx | FUnimodalityProx | FSimplexProx | FNormalizedSparsityProx | FSoftSparsityProx
+| FSmoothnessProx | FMonotonicityProx | FHardThresholding | FUnknown.
+Inductive darg := ATensor | AParam | AKwDecreasing (b : bool) | AUnknown.
+Inductive dop :=
+| DClip0                     (* tl.clip(tensor, a_min=0) *)
+| DDivMaxAbs                 (* tensor / tl.max(tl.abs(tensor)) *)
+| DCall (f : pyfun) (args : list darg)
+| DUnknown.
+
+Definition pyfun_id (f : pyfun) : nat :=
+  match f with FSoftThresholding => 0 | FL2Prox => 1 | FL2SquareProx => 2 | FUnimodalityProx => 3 | FSimplexProx => 4
+  | FNormalizedSparsityProx => 5 | FSoftSparsityProx => 6 | FSmoothnessProx => 7 | FMonotonicityProx => 8 | FHardThresholding => 9
+  | FUnknown => 10 end.
+Definition darg_eqb (a b : darg) : bool :=
+  match a, b with
+  | ATensor, ATensor | AParam, AParam => true
+  | AKwDecreasing x, AKwDecreasing y => Bool.eqb x y
+  | _, _ => false
+  end.
+Fixpoint dargs_eqb (a b : list darg) : bool :=
+  match a, b with [], [] => true | x :: a', y :: b' => darg_eqb x y && dargs_eqb a' b' | _, _ => false end.
+
+Section Denote.
+  Context {F : Type} (Op : fops F) {P : Type} (nrm : list F -> F) (toF : P -> F) (toN : P -> nat)
+          (other : kind -> P -> list (list F) -> list (list F)).
+  Local Notation mat := (list (list F)).
+
+  (* the operator a returned expression stands for; None: not an expression this model understands (fail closed).
+     The four penalty operators are not modelled here: the call `f(tensor, parameter)` of the expected function is `other k`. *)
+  Definition denote (k : kind) (d : dop) : option (P -> mat -> mat) :=
+    match d with
+    | DClip0 => Some (fun _ x => flatwise (non_negative Op) x)
+    | DDivMaxAbs => Some (fun _ x => flatwise (normalize Op) x)
+    | DCall f args =>
+        match f with
+        | FSimplexProx => if dargs_eqb args [ATensor; AParam] then Some (fun p x => colwise Op (simplex_prox Op (toF p)) x) else None
+        | FSoftSparsityProx => if dargs_eqb args [ATensor; AParam] then Some (fun p x => colwise Op (soft_sparsity_prox Op (toF p)) x) else None
+        | FHardThresholding => if dargs_eqb args [ATensor; AParam] then Some (fun p x => flatwise (hard_thresholding Op (toN p)) x) else None
+        | FNormalizedSparsityProx =>
+            if dargs_eqb args [ATensor; AParam]
+            then Some (fun p x => flatwise (fun v => normalized_sparsity_with Op (nrm (hard_thresholding Op (toN p) v)) (toN p) v) x) else None
+        | FUnimodalityProx => if dargs_eqb args [ATensor] then Some (fun _ x => cols_of Op (unimodality_cols Op (cols_of Op x))) else None
+        | FMonotonicityProx =>
+            match args with
+            | [ATensor] => Some (fun _ x => colwise Op (monotonicity_prox Op false) x)              (* default: decreasing=False *)
+            | [ATensor; AKwDecreasing b] => Some (fun _ x => colwise Op (monotonicity_prox Op b) x)
+            | _ => None
+            end
+        | FSoftThresholding => if dargs_eqb args [ATensor; AParam] && kind_eqb k KL1 then Some (other KL1) else None
+        | FL2Prox => if dargs_eqb args [ATensor; AParam] && kind_eqb k KL2 then Some (other KL2) else None
+        | FL2SquareProx => if dargs_eqb args [ATensor; AParam] && kind_eqb k KL2sq then Some (other KL2sq) else None
+        | FSmoothnessProx => if dargs_eqb args [ATensor; AParam] && kind_eqb k KSmooth then Some (other KSmooth) else None
+        | FUnknown => None
+        end
+    | DUnknown => None
+    end.
+
+  Fixpoint lookup_kind (k : kind) (tbl : list (kind * dop)) : option dop :=
+    match tbl with [] => None | (k', d) :: r => if kind_eqb k k' then Some d else lookup_kind k r end.
+
+  (* the operator family a dispatch table stands for (first matching branch, as an if/elif chain); a constraint name without a
+     branch reaches `raise RuntimeError`, an expression outside the vocabulary has no meaning: None *)
+  Definition op_of_table (tbl : list (kind * dop)) (k : kind) : option (P -> mat -> mat) :=
+    match lookup_kind k tbl with Some d => denote k d | None => None end.
+End Denote.
+
+(* the dispatch the end-to-end theorems are stated for, entry by entry; monotonicity_prox(tensor) with the keyword spelled out
+   (decreasing=False) is the same call *)
+Definition dop_expected (k : kind) (d : dop) : bool :=
+  match k, d with
+  | KNonNeg, DClip0 => true
+  | KNormalize, DDivMaxAbs => true
+  | KL1, DCall FSoftThresholding a | KL2, DCall FL2Prox a | KL2sq, DCall FL2SquareProx a | KSmooth, DCall FSmoothnessProx a
+  | KSimplex, DCall FSimplexProx a | KNormSparsity, DCall FNormalizedSparsityProx a | KSoftSparsity, DCall FSoftSparsityProx a
+  | KHardSparsity, DCall FHardThresholding a => dargs_eqb a [ATensor; AParam]
+  | KUnimodal, DCall FUnimodalityProx a => dargs_eqb a [ATensor]
+  | KMonotone, DCall FMonotonicityProx a => dargs_eqb a [ATensor] || dargs_eqb a [ATensor; AKwDecreasing false]
+  | _, _ => false
+  end.
+Definition dispatch_ok (tbl : list (kind * dop)) : bool :=
+  forallb (fun k => match lookup_kind k tbl with Some d => dop_expected k d | None => false end) all_kinds.
